@@ -450,6 +450,21 @@ impl Engine for HandlerEngine {
             }
             ops.push(format!("in x06 {s1} q get_peers id={} info_hash={} want=none @{t}", hex(&rng.bytes(20)), ihs[0]));
         }
+        if v6 && idx % 3 != 0 {
+            // a link-local peer (its source address carries an interface scope) announces the same contact twice,
+            // once with an implied port and once with the explicit port equal to its source port: one pair
+            // (round-4 seed C07: the explicit-port path rebuilt the address and lost the scope)
+            let s1 = "v6:fe80000000000000000000000000000a:6881";
+            let ipx = "fe80000000000000000000000000000a";
+            ops.push(format!("in x10 {s1} q get_peers id={} info_hash={} want=none @{t}", hex(&rng.bytes(20)), ihs[1]));
+            let order: [&str; 2] = if rng.chance(1, 2) { ["implied", "6881"] } else { ["6881", "implied"] };
+            for port in order {
+                for k in 0..2 {
+                    ops.push(format!("in x11 {s1} q announce_peer id={} info_hash={} port={port} token=T{ipx}.{k} @{t}", hex(&rng.bytes(20)), ihs[1]));
+                }
+            }
+            ops.push(format!("in x12 {s1} q get_peers id={} info_hash={} want=none @{t}", hex(&rng.bytes(20)), ihs[1]));
+        }
         let n = if thorough { 150 } else { 50 };
         let mut issued_tokens: Vec<(String, String)> = vec![]; // (src addr, T-form)
         for _ in 0..n {
@@ -960,7 +975,10 @@ async fn run_scenario(ctx: &mut Option<Ctx>, req: &str, case: usize, out: &mut V
                 "lossy" => {
                     match rng.below(10) {
                         0..=2 => {}
-                        3..=4 => events.push((t + 1400 * MS + rng.below(200) as u128 * MS, good)),
+                        // around and shortly after the 1.5 s query time-out: the answer of a slow node that is no
+                        // longer outstanding while the search goes on (round-4 seeds C03, C17: its token kept)
+                        3 => events.push((t + 1400 * MS + rng.below(200) as u128 * MS, good)),
+                        4 => events.push((t + 1501 * MS + rng.below(900) as u128 * MS, good)),
                         5 => events.push((t + 2000 * MS + rng.below(3000) as u128 * MS, good)),
                         6 => events.push((t + lat(&mut rng), format!("in #{k} {} e code=201 msg={}", addr_str(&nd.addr), hex(b"no")))),
                         _ => events.push((t + lat(&mut rng), good)),
